@@ -13,7 +13,10 @@ def scenarios(tier, pid):
     S = []
 
     def sc(name, props, *args):
-        if pid in props:
+        # every scenario is judged by C09, C10, C11 and C12 alike (see p_registry.scenarios); C03 keeps
+        # its own selection (deliveries injected inside consumer calls / on other threads)
+        common = ("C09", "C10", "C11", "C12")
+        if pid in props or (pid in common and any(q in common for q in props)):
             S.append((name, list(args)))
     T = tier == "thorough"
     sc("wait_vs_delivery", ("C09", "C10", "C03"), "--consumer", "w", "--others", "D10")
@@ -51,6 +54,11 @@ def scenarios(tier, pid):
        "a12,D12;a12", "--watch", "10", "--preempt", 1)
     sc("raw_three_deliveries_vs_pending", ("C10",), "--raw", "--consumer", "p,p,p", "--others",
        "D10,D10,D10", "--preempt", 2)
+    # two deliveries on different threads race for the last free slot of the per-signal channel
+    sc("raw_two_threads_last_slot", ("C03", "C10"), "--raw", "--consumer", "p", "--others",
+       "D10,D10,D10,D10,D10;D10", "--preempt", 1)
+    sc("raw_duplicate_in_initial_set", ("C10", "C12"), "--raw", "--consumer", "p,p", "--others", "D10,D12",
+       "--watch", "10,12,10", "--preempt", 1)
     sc("burst_same_signal", ("C10",), "--consumer", "p,p,p", "--others", "D10,D10,D10;D10",
        "--preempt", 2 if T else 1)
     sc("raw_records_two_producers", ("C10", "C09") if T else ("C10",), "--raw", "--consumer", "p,p,p",
